@@ -1476,9 +1476,25 @@ func (ro *RedisOutput) bisyncStartPoint(ctx context.Context, runIDs []string) (S
 			return sp, 0, false, err
 		}
 		ro.logger.Infof("bisync startpoint parallel: checkpoint(%s), slots(%d), snapshot(%+v), records(%d), minSeq(%d), runIDs(%v)", checkpointName, len(slots), snapshot, len(records), minSeq, runIDs)
+		// Whenever this start falls back to the root checkpoint the unit numbering restarts at 1 :
+		// the frontier and the journal records of the old numbering are discarded first, otherwise
+		// a later start would chain them onto units of the new numbering.
+		restartNumbering := func() (StartPoint, int64, bool, error) {
+			if err := ro.discardBisyncNumbering(cli, checkpointName, slots, snapshot, records); err != nil {
+				return sp, 0, false, err
+			}
+			return rootStartPoint, 0, true, nil
+		}
 		frontier, err := checkpoint.RebuildBisyncFrontier(snapshot, records)
 		bisyncFrontierRebuildGauge.Set(time.Since(begin).Seconds(), ro.cfg.InputName)
 		if err != nil {
+			if errors.Is(err, checkpoint.ErrBisyncJournalGap) {
+				// no frontier and the journal does not begin at 1 : the contiguous committed prefix
+				// is empty, the replay resumes from the root checkpoint
+				ro.logger.Warnf("bisync startpoint parallel journal gap: checkpoint(%s), err(%v), fallback(%+v)", checkpointName, err, rootStartPoint)
+				ro.markBisyncFrontierMiss(rootStartPoint.RunId)
+				return restartNumbering()
+			}
 			return sp, 0, false, err
 		}
 		if frontier != nil && frontier.UnitSeq > 0 {
@@ -1489,7 +1505,7 @@ func (ro *RedisOutput) bisyncStartPoint(ctx context.Context, runIDs []string) (S
 			}
 			if ro.bisyncRootCheckpointNewer(rootStartPoint, sp, runIDs) {
 				ro.logger.Infof("bisync startpoint parallel root override: checkpoint(%s), root(%+v), frontier(%+v)", checkpointName, rootStartPoint, sp)
-				return rootStartPoint, 0, true, nil
+				return restartNumbering()
 			}
 			// Recovery may consume the first post-snapshot journal records to rebuild
 			// the durable frontier. Once that frontier is selected, those journal
@@ -1507,7 +1523,7 @@ func (ro *RedisOutput) bisyncStartPoint(ctx context.Context, runIDs []string) (S
 		ro.markBisyncFrontierMiss(rootStartPoint.RunId)
 		ro.logger.Warnf("bisync startpoint parallel miss: checkpoint(%s), slots(%d), runIDs(%v)", checkpointName, len(slots), runIDs)
 		ro.logger.Infof("bisync startpoint parallel fallback: checkpoint(%s), start(%+v)", checkpointName, rootStartPoint)
-		return rootStartPoint, 0, true, nil
+		return restartNumbering()
 	}
 
 	best, recordCount, err := checkpoint.LoadBisyncLatestStartRecord(cli, checkpointName, slots, runIDs)
@@ -1526,6 +1542,35 @@ func (ro *RedisOutput) bisyncStartPoint(ctx context.Context, runIDs []string) (S
 	}
 	ro.logger.Infof("bisync startpoint latest selected: mode(%s), checkpoint(%s), start(%+v), seq(%d), slot(%d)", ro.cfg.ReplayMode, checkpointName, sp, best.UnitSeq, best.Slot)
 	return sp, best.UnitSeq, true, nil
+}
+
+// discardBisyncNumbering removes what a start has found stored of the current unit numbering.
+func (ro *RedisOutput) discardBisyncNumbering(cli client.Redis, checkpointName string, slots []uint16, snapshot *checkpoint.BisyncFrontierSnapshot, records []*checkpoint.BisyncCommitRecord) error {
+	if snapshot == nil && len(records) == 0 {
+		return nil
+	}
+	return ro.resetBisyncFrontierState(cli, checkpointName, slots)
+}
+
+// resetBisyncFrontierState removes the frontier snapshot and every journal record of the namespace.
+// Journal records first : if this is interrupted, the next start finds the old frontier without
+// records behind it, falls back to the root checkpoint again and repeats the removal.
+func (ro *RedisOutput) resetBisyncFrontierState(cli client.Redis, checkpointName string, slots []uint16) error {
+	indexKeys := make([]string, 0, len(slots))
+	for _, slot := range slots {
+		indexKeys = append(indexKeys, checkpoint.BisyncCommitIndexKey(checkpointName, checkpoint.BisyncSlotTag(slot)))
+	}
+	commitKeys, err := loadBisyncCommitRecordKeys(cli, indexKeys)
+	if err != nil {
+		return err
+	}
+	if err := deleteBisyncKeysInChunks(cli, commitKeys, 256); err != nil {
+		return err
+	}
+	if err := deleteBisyncKeysInChunks(cli, indexKeys, 256); err != nil {
+		return err
+	}
+	return deleteBisyncKeysInChunks(cli, []string{checkpoint.BisyncFrontierKey(checkpointName)}, 256)
 }
 
 func (ro *RedisOutput) bisyncRootCheckpointNewer(root StartPoint, selected StartPoint, runIDs []string) bool {
@@ -1615,6 +1660,11 @@ func (ro *RedisOutput) bisyncFrontierMissFastPath(root StartPoint, runIDs []stri
 		return sp, seq, true
 	}
 
+	if seq > 0 {
+		// units were sent since the miss was cached : their journal records may be stored, the
+		// full path has to look at them (and to discard them if the numbering restarts)
+		return StartPoint{}, 0, false
+	}
 	ro.logger.Infof("bisync startpoint parallel fast-path fallback: checkpoint(%s), start(%+v), reason(cached-miss)", ro.bisyncCheckpointName(), root)
 	return root, 0, true
 }
